@@ -254,7 +254,7 @@ def new_version(data, allow_custom=None, **kwargs):
             and custom_props.get('modified') is not None:
         kwargs['modified'] = custom_props['modified']
 
-    if 'modified' in kwargs:
+    if kwargs.get('modified') is not None:
         new_modified = parse_into_datetime(
             kwargs['modified'], precision='millisecond',
             precision_constraint=precision_constraint,
